@@ -102,6 +102,38 @@ def run_check_order():
     return first_expected < first_dispatch
 
 
+def run_replies_fixed_width():
+    """AST of Transport.run: no call of `Message.add()` / `add_adaptive_int()` (variable-width integer encoding) when
+    the loop builds a reply — UNIMPLEMENTED carries a uint32.  None if unreadable."""
+    import paramiko.transport as T
+
+    try:
+        tree = ast.parse(textwrap.dedent(inspect.getsource(T.Transport.run)))
+    except (OSError, SyntaxError):
+        return None
+    for n in ast.walk(tree):
+        if isinstance(n, ast.Call) and isinstance(n.func, ast.Attribute) and n.func.attr in ("add", "add_adaptive_int"):
+            return False
+    return True
+
+
+def read_message_one_packet_per_call():
+    """AST of Packetizer.read_message: no call of read_message from within itself and no loop — every well-framed
+    packet is handed to the caller, the packetizer never skips one on its own.  None if unreadable."""
+    import paramiko.packet as P
+
+    try:
+        tree = ast.parse(textwrap.dedent(inspect.getsource(P.Packetizer.read_message)))
+    except (OSError, SyntaxError):
+        return None
+    for n in ast.walk(tree):
+        if isinstance(n, (ast.While, ast.For)):
+            return False
+        if isinstance(n, ast.Call) and isinstance(n.func, ast.Attribute) and n.func.attr == "read_message":
+            return False
+    return True
+
+
 def read_tables():
     """Key sets of every dispatch table, read from live objects of the tree under test."""
     import paramiko
@@ -155,8 +187,14 @@ def lean_tables(tables, consts, total):
         "def tables : Tables :=\n  { namesTotal := %s,\n    highestUserauth := %d,\n%s }\n\n"
         "/-- Transport.run, loop body: the `_expected_packet` test precedes every table dispatch and `_ensure_authed` -/\n"
         "def expectedCheckBeforeDispatch : Bool := %s\n\n"
+        "/-- Transport.run builds its replies without Message.add() / add_adaptive_int() -/\n"
+        "def runRepliesUseFixedWidth : Bool := %s\n\n"
+        "/-- Packetizer.read_message: no recursion, no loop — one packet per call, none skipped -/\n"
+        "def readMessageDeliversEveryPacket : Bool := %s\n\n"
         "end PV.Generated.C12\n" % (cl, "true" if total else "false", tables["highestUserauth"], body,
-                                      "true" if run_check_order() else "false")
+                                      "true" if run_check_order() else "false",
+                                      "true" if run_replies_fixed_width() else "false",
+                                      "true" if read_message_one_packet_per_call() else "false")
     )
 
 
@@ -304,6 +342,15 @@ def exc_class(e):
     return "internal"
 
 
+def strict_u32(m):
+    """the body of an UNIMPLEMENTED message read strictly: exactly one uint32, nothing before or after (paramiko's own
+    getters pad short data with zeros and ignore trailing bytes)"""
+    body = m.get_remainder()
+    if len(body) != 4:
+        return ("malformed", body.hex())
+    return int.from_bytes(body, "big")
+
+
 class Pair:
     """A real client and a real server Transport over a LoopSocket pair.  `subject` is the side under test,
     `peer` the other one, used as a raw sender (its own `_send_message`) and as the observer (hooks in the
@@ -346,7 +393,7 @@ class Pair:
         self.peer = self.ts if subject_role == "client" else self.tc
         self.unimpl = []
         self.pong = threading.Event()
-        self.peer._handler_table[3] = lambda m: self.unimpl.append(m.get_int())
+        self.peer._handler_table[3] = lambda m: self.unimpl.append(strict_u32(m))
         self.peer._handler_table[81] = lambda m: self.pong.set()
         self.peer._handler_table[82] = lambda m: self.pong.set()
 
@@ -561,7 +608,9 @@ def frag_gate_socket():
         def recv(self, n):
             if self.script:
                 ev = self.script.pop(0)
-                if ev == "t":
+                if ev in ("t", "T"):
+                    if ev == "T":
+                        time.sleep(0.03)        # a real idle gap on the link (longer than a keepalive interval)
                     self.delivered.append("t")
                     raise socket.timeout
                 r = super().recv(min(n, ev))
@@ -587,7 +636,7 @@ def swallow_unimplemented(transport, sink):
         while True:
             ptype, m = orig()
             if ptype == 3:
-                sink.append(m.get_int())
+                sink.append(strict_u32(m))
                 continue
             return ptype, m
 
@@ -871,6 +920,30 @@ def newkeys_keeps_auth_handler():
     return ok
 
 
+def keepalive_silent_while_rekey_pending():
+    """AST of Packetizer._check_keepalive: an early `return` whose test includes `self.__need_rekey` precedes the call
+    of the keepalive callback (the callback sends through _send_user_message on the transport thread).  None if
+    unreadable."""
+    import paramiko.packet as P
+
+    try:
+        tree = ast.parse(textwrap.dedent(inspect.getsource(P.Packetizer._check_keepalive)))
+    except (OSError, SyntaxError):
+        return None
+    body = tree.body[0].body
+    guard_at = call_at = None
+    for i, st in enumerate(body):
+        if guard_at is None and isinstance(st, ast.If) and any(isinstance(x, ast.Return) for x in st.body) and any(
+                isinstance(x, ast.Attribute) and x.attr.endswith("need_rekey") for x in ast.walk(st.test)):
+            guard_at = i
+        if call_at is None and any(isinstance(x, ast.Call) and isinstance(x.func, ast.Attribute)
+                                   and x.func.attr.endswith("keepalive_callback") for x in ast.walk(st)):
+            call_at = i
+    if call_at is None:
+        return None
+    return guard_at is not None and guard_at < call_at
+
+
 def overflow_test_facts():
     """From the AST of Packetizer.read_message: inside `if self.__need_rekey:` the test that raises "ignoring rekey
     requests" compares which counters with which limits?  Returns [(counter attribute, limit attribute)] (names
@@ -927,12 +1000,15 @@ def lean_channel_table(sites, takes, handlers, gate):
         "def allClearsUnderLock : Bool := clearSites.all (·.2.2) && !clearSites.isEmpty\n\n"
         "/-- Transport._parse_newkeys assigns `self.auth_handler` only under an `auth_handler is None` test -/\n"
         "def newkeysKeepsAuthHandler : Bool := %s\n\n"
+        "/-- Packetizer._check_keepalive returns before the callback while a rekey request is pending -/\n"
+        "def keepaliveSilentWhileRekeyPending : Bool := %s\n\n"
         "end PV.Generated.C11\n" % (rows, hrows, "true" if gate["rechecks_under_lock"] else "false",
                                       "true" if gate["clears_before_write"] else "false",
                                       ", ".join('("%s", "%s")' % p for p in (gate.get("overflow_tests") or [])),
                                       ", ".join('("%s", %d, %s)' % (f, l, "true" if u else "false")
                                                 for f, l, u in (gate.get("clear_sites") or [])),
-                                      "true" if gate.get("newkeys_keeps_auth_handler") else "false")
+                                      "true" if gate.get("newkeys_keeps_auth_handler") else "false",
+                                      "true" if gate.get("keepalive_guard") else "false")
     )
 
 
@@ -945,6 +1021,7 @@ def write_generated_c11(ctx):
     gate["overflow_tests"] = overflow_test_facts()
     gate["clear_sites"] = clears_under_lock()
     gate["newkeys_keeps_auth_handler"] = newkeys_keeps_auth_handler()
+    gate["keepalive_guard"] = keepalive_silent_while_rekey_pending()
     ctx.extra["send_gate_facts"] = gate
     ctx.write_generated("C11", lean_channel_table(sites, takes, handlers, gate))
     return sites, takes, handlers
